@@ -94,6 +94,14 @@ structure Orders where
 
 def Orders.id : Orders := ⟨[], [], [], [], [], fun _ => [], []⟩
 
+/-- **the repaired code** ranges over `slices.Sorted(maps.Keys(m))`.  `κ` lists the keys in
+    sorted order, `ρ` is the runtime order of the map: the keys `κ` names come first, in `κ`'s
+    order, and only keys `κ` does not name would still come in runtime order — none, when `κ`
+    is complete (`Props.deterministic`). -/
+def Orders.over (κ ρ : Orders) : Orders :=
+  ⟨κ.srv ++ ρ.srv, κ.uniq ++ ρ.uniq, κ.dom ++ ρ.dom, κ.addr ++ ρ.addr, κ.raddr ++ ρ.raddr,
+   fun R => κ.recv R ++ ρ.recv R, κ.laddr ++ ρ.laddr⟩
+
 inductive Route where
   | user (id : Nat) (hasHost : Bool)
   | redir (hosts : Option (List Name)) (port : Nat)   -- `none` = no host matcher; port 0 = no explicit port
